@@ -59,6 +59,17 @@ func (w *W) put(kind string, v uint64, n int) {
 		if v == orig {
 			v = (orig ^ 1) & mask
 		}
+		if kind == "len" && w.Fault.Variant >= 15 && w.Fault.Variant < 20 {
+			// a general length replaced by a run of 16K-fragment headers closed by a zero length:
+			// "the list/string has k x 64K elements" claimed in k+1 octets
+			k := 2 + (w.Fault.Variant-15)*9
+			for i := 0; i < k; i++ {
+				w.Bits(0xC4, 8)
+			}
+			w.Bits(0, 8)
+			w.Fault.Hit = fmt.Sprintf("len/fragment-run:%dxC4", k)
+			return
+		}
 		w.Fault.Hit = fmt.Sprintf("%s/%dbits:%d->%d", kind, n, orig, v)
 		w.Bits(v, n)
 		if kind == "ext-int" && v == 1 {
